@@ -81,7 +81,7 @@ class CborIndefiniteLenArrayDecoder:
         """
 
         # Check for validity
-        if len(enc_bytes) < 3:
+        if len(enc_bytes) < 2:
             raise ValueError(f"Invalid length ({len(enc_bytes)})")
         if enc_bytes[0] != CborIds.INDEF_LEN_ARRAY_START:
             raise ValueError(f"Invalid first byte ({enc_bytes[0]})")
